@@ -256,6 +256,12 @@ class Component( ComponentLevel7 ):
     for func, obj_name in provided_func_calls:
       parent._dsl.func_calls[func].add( eval(obj_name) )
 
+    # Evaluating the saved names may have spawned slices / struct fields of
+    # the new component's signals; they are part of the design as well
+    spawned_signals = obj._collect_all_single( lambda x: isinstance( x, Signal ) ) - added_signals
+    top._dsl.all_signals       |= spawned_signals
+    top._dsl.all_named_objects |= spawned_signals
+
     del NamedObject._elaborate_stack
 
   def _delete_component( top, obj ):
